@@ -108,15 +108,15 @@ func (w *work) issue(caFile, tArg, subjFile string, args []string) (certType str
 
 // printed is what `ssh-keygen -L` reports about a certificate.
 type printed struct {
-	Algo, Kind       string // certificate algorithm, "user"/"host"
-	SubjectFP, CAFP  string
-	CAType, Using    string
-	KeyID            string
-	Serial           uint64
-	Valid            string
-	Principals       []string
-	Crit, Ext        [][2]string // name, rest of line
-	Raw              string
+	Algo, Kind      string // certificate algorithm, "user"/"host"
+	SubjectFP, CAFP string
+	CAType, Using   string
+	KeyID           string
+	Serial          uint64
+	Valid           string
+	Principals      []string
+	Crit, Ext       [][2]string // name, rest of line
+	Raw             string
 }
 
 var (
